@@ -5,8 +5,9 @@
    The String() clause is stated three times: for all key events (C09_description_function_of_chord),
    for every encoding - legacy, kitty, xterm modifyOtherKeys - of 4672 chords against the chord's own
    Key value (C09_description_of_encoding, ..._encoding_independent, ..._after_history), and together
-   with Matches for the both-expressible chords (C09_cross_protocol).  Not claimed: that a BS-coded
-   Backspace report (Keycode 8) matches bindings of KeyBackspace - Matches compares key codes. *)
+   with Matches for the both-expressible chords (C09_cross_protocol).  The model follows fix bc2c33a
+   (a BS-coded Backspace report decodes to KeyBackspace); C09_own_binding_every_encoding is the theorem
+   that fix makes true, C09_own_binding_unfixed_refuted shows it false of the code before. *)
 From Vx Require Import base.Prelude gen.GenKeys model.Keys proofs.KeysProofs.
 From Vx Require Import model.ParserTypes model.Parser model.KeysStream proofs.KeysStreamProofs.
 Local Open Scope Z_scope.
@@ -171,7 +172,8 @@ Print Assumptions C09_cross_protocol_shift_noalt_refuted.
 (* String() is a function of the chord: two key events that are the same key (the code points BS and
    DEL are both Backspace), carry the same Shift/Alt/Ctrl/Super/Hyper/Meta set (none for a release) and,
    for a key printed as a rune, the same Caps Lock state, have the same String().  For ALL key events
-   (any code, text, alternate codes, 64-bit masks, event types) and every oracle. *)
+   (any code, text, alternate codes, 64-bit masks, event types) and every oracle.  This is also the second
+   predicate of stream "string" (a key and a variation of it built by the harness): it holds of the model. *)
 Theorem C09_description_function_of_chord : forall (u : uni) (a b : key),
   kdesc_equivb a b = true -> key_string u a = key_string u b.
 Proof. intros u a b H. exact (kdesc_equiv_sound a b H u). Qed.
@@ -209,6 +211,67 @@ Theorem C09_desc_predicate_holds : forall (u : uni), ascii_like u ->
               (key_string u (decode_key u s1)) (key_string u (decode_key u s2)) = true.
 Proof. exact desc_obs_ok_model. Qed.
 Print Assumptions C09_desc_predicate_holds.
+
+(* ---------- the chord the user pressed matches its own binding under every encoding ---------- *)
+
+(* MatchString of a printed binding, for ANY event k and any printed key k0 in [sm_scope]:
+   k.MatchString(k0.String()) = k.Matches(k0.Keycode, k0.Modifiers). *)
+Theorem C09_binding_string_of_key : forall (u : uni), lower_hyp u -> fold_hyp u ->
+  forall k0 k : key, sm_scope k0 = true ->
+  match_string u k (key_string u k0) = matches u k (k_code k0) (k_mods k0).
+Proof. exact string_binding_parse. Qed.
+Print Assumptions C09_binding_string_of_key.
+
+(* For each of the 4672 chords of [desc_chord] and EVERY encoding in [all_encs] (legacy bytes, kitty reports
+   with or without alternates / text / lock bits / press event, xterm modifyOtherKeys reports, Backspace
+   under both code points): the decoded key matches the chord's binding (code, modifiers), and - unless
+   the binding string is unparseable, recorded finding plus-binding - MatchString of its own String().
+   Explicit guards: esc-upper (the legacy ESC <upper-case letter> form) and plus-binding ('+' with
+   modifiers); kitty-shift-without-alternate concerns the binding of the upper-case rune, not the chord's
+   own binding (lower-case code with Shift), and needs no guard here. *)
+Theorem C09_own_binding_every_encoding : forall (u : uni), ascii_like u -> lower_hyp u -> fold_hyp u ->
+  forall (c : chord) (s : kseq),
+  desc_chord c = true -> In s (all_encs c) -> guard_esc_upper_seq c s = false ->
+  matches u (decode_key u s) (ch_code c) (ch_mods c) = true /\
+  (guard_plus_binding c = false ->
+   match_string u (decode_key u s) (key_string u (decode_key u s)) = true).
+Proof.
+  intros u Ha Hl Hf c s Hc Hs Hg. split.
+  - exact (own_binding_matches u Ha c s Hc Hs Hg).
+  - intros Hp. exact (own_binding_string u Ha Hl Hf c s Hc Hs Hg Hp).
+Qed.
+Print Assumptions C09_own_binding_every_encoding.
+
+(* The instance fix bc2c33a makes true: Backspace with any modifier set, under every encoding - the C0
+   byte BS, the byte DEL, ESC DEL, CSI 127;m u, CSI 8;m u, CSI 27;m;127~, CSI 27;m;8~, with lock bits -
+   matches the binding (KeyBackspace, mods) and the binding string that is its own String(). *)
+Theorem C09_backspace_own_binding : forall (u : uni), ascii_like u -> lower_hyp u -> fold_hyp u ->
+  forall (m : Z) (s : kseq), 0 <= m <= 63 -> In s (all_encs (mkChord KeyBackspace m)) ->
+  matches u (decode_key u s) KeyBackspace m = true /\
+  match_string u (decode_key u s) (key_string u (decode_key u s)) = true.
+Proof. exact backspace_own_binding. Qed.
+Print Assumptions C09_backspace_own_binding.
+
+(* ... and was false of decodeKey before that fix ([decode_key_unfixed]: no BS normalisation in the CSI
+   case): Ctrl+Backspace as CSI 27;5;8~ kept key code 8 and matched neither binding. *)
+Theorem C09_own_binding_unfixed_refuted :
+  let c := mkChord KeyBackspace 4 in let s := SCSI [] [[27]; [5]; [8]] 126 in
+  desc_chord c = true /\ existsb (kseq_eqb s) (all_encs c) = true /\ guard_esc_upper_seq c s = false /\
+  guard_plus_binding c = false /\
+  k_code (decode_key_unfixed ascii_uni s) = 8 /\
+  matches ascii_uni (decode_key_unfixed ascii_uni s) KeyBackspace 4 = false /\
+  match_string ascii_uni (decode_key_unfixed ascii_uni s) (key_string ascii_uni (decode_key_unfixed ascii_uni s)) = false /\
+  matches ascii_uni (decode_key ascii_uni s) KeyBackspace 4 = true.
+Proof. exact own_binding_unfixed_refuted. Qed.
+Print Assumptions C09_own_binding_unfixed_refuted.
+
+(* The second predicate of stream "desc" (own binding on every observation) holds of the model. *)
+Theorem C09_own_predicate_holds : forall (u : uni), ascii_like u -> lower_hyp u -> fold_hyp u ->
+  forall (c : chord) (s : kseq), desc_chord c = true -> In s (all_encs c) ->
+  own_obs_ok c s (matches u (decode_key u s) (ch_code c) (ch_mods c))
+                 (match_string u (decode_key u s) (key_string u (decode_key u s))) = true.
+Proof. exact own_obs_ok_model. Qed.
+Print Assumptions C09_own_predicate_holds.
 
 (* ---------- one long-lived parser instance: a report decodes the same after any history ---------- *)
 (* model/KeysStream.v composes decodeKey with the model of ansi/parser.go (model/Parser.v, interpreting
